@@ -209,6 +209,13 @@ def run_group(repo, unit, g, variant_defs=(), tag=''):
         if r['status'] != 'SUCCESS':
             o['trace'] = r.get('trace', [])
             res['failed'].append(o)
+            # a failing built-in check located inside the specification itself is a defect of the
+            # specification (undecided), never a violation of the code
+            fn = o['function']
+            if r['status'] == 'FAILURE' and re.match(r'(spec_|pre_|post_|H_|stub_|h_)', fn) and \
+               not re.search(r'\.(assertion|postcondition|precondition)\.', o['id']):
+                res['detail'] = 'built-in check failed inside specification code: %s %s' % (o['id'], o['description'])
+                res['spec_error'] = True
     res['seconds']['total'] = round(time.time() - t_all, 2)
     if res['canary'] is None:
         res['detail'] = 'no canary obligation in entry'
@@ -222,6 +229,9 @@ def run_group(repo, unit, g, variant_defs=(), tag=''):
         return res
     if g.get('enforce') and not any('postcondition' in o['id'] or 'postcondition' in o['description'].lower() for o in res['obligations']):
         res['detail'] = 'no postcondition obligation generated'
+        return res
+    if res.get('spec_error'):
+        res['status'] = 'error'
         return res
     res['status'] = 'failed' if any(o['status'] == 'FAILURE' for o in res['failed']) else ('ok' if not res['failed'] else 'error')
     if res['status'] == 'error':
